@@ -16,7 +16,7 @@ KidJ(ch) == [lids |-> [i \in 1..Len(ch.L) |-> IF ch.L[i].ok THEN ch.L[i].id ELSE
              good |-> [i \in 1..Len(ch.L) |-> B(ch.L[i].ok /\ ch.L[i].mt = ch.L[i].wc)],
              diff |-> [i \in 1..Len(ch.L) |-> B(i <= Len(ch.D) /\ ch.D[i] = DiffOf(ch.L[i]))]]
 Scn == [img |-> [n |-> img.n, hist |-> HistStr(img.hist), shape |-> img.shape, mt |-> img.fam, comp |-> img.comp,
-                 data |-> B(img.data), refs |-> B(img.refs), ext |-> 0, alg |-> img.alg],
+                 data |-> B(img.data), refs |-> B(img.refs), ext |-> 0, alg |-> img.alg, ut |-> B(img.ut)],
         place |-> place, src |-> src,
         prog |-> [j \in 1..Len(prog) |-> OptJ(prog[j])],
         noop |-> B(NoopProg),
@@ -34,6 +34,9 @@ GenPats(n) == CASE n = 1 -> {<<"L">>, <<"E", "L">>, <<"L", "E">>, <<>>}
 ImagesGen == UNION {{ImgA(n, h, sh, fam, comp, data, refs, alg) : h \in GenPats(n)} :
                       n \in 1..3, sh \in {"image", "index"}, fam \in {"oci", "docker"},
                       comp \in {"gzip", "zstd", "none", "mixed"}, data \in BOOLEAN, refs \in BOOLEAN, alg \in {"sha256", "sha512"}}
+             \cup UNION {{UT(Img(2, h, sh, fam, comp, data, refs)) : h \in GenPats(2)} :
+                      sh \in {"image", "index"}, fam \in {"oci", "docker"},
+                      comp \in {"gzip", "zstd", "none", "mixed"}, data \in BOOLEAN, refs \in BOOLEAN}
 OptsExtra == {O("ToOCIReferrers"), O("ExternalURLsRm")}     \* no-ops on these images; effective on the runner's attest / ext variants
 OptsGen == OptsAll \cup OptsExtra
 OptsAddRm == {Oa("AddLayer", ""), Oa("AddLayer", "linux/amd64"), Oi("RmIndex", 0), Oi("RmIndex", 1), Oi("RmIndex", 2),
